@@ -22,6 +22,7 @@ const K3_SIG: &str = "eigen:real-part-reducible-with-derivative-coupling";
 const K4_SIG: &str = "nalgebra-symmetric_eigen:derivative-parts-converge-later-than-the-real-part(relative-residual<=1e-6/5e-2/0.5-by-order)";
 /// relative residual up to which a miss of the rounding-level bound is attributed to K4
 const K4_BAND: f64 = 1.0;
+const K6_SIG: &str = "nalgebra-symmetric_eigen:real-part-has-zero-offdiagonal-entries-with-derivative-parts";
 const K5_SIG: &str = "jacobi_eigenvalue:derivative-parts-converge-later-than-the-real-part(relative-residual<=1e-6/5e-2/0.5-by-order)";
 
 type J = Jet<f64>;
@@ -72,6 +73,29 @@ fn symmetric(rng: &mut Rng, n: usize) -> Vec<Vec<f64>> {
     }
     rng.shuffle(&mut lam);
     (0..n).map(|i| (0..n).map(|j| (0..n).map(|k| q[i][k] * lam[k] * q[j][k]).sum()).collect()).collect()
+}
+
+/// symmetric real part that is irreducible but has exact-zero off-diagonal entries (a tridiagonal or
+/// arrow pattern, randomly relabelled); distinct diagonal, small couplings -> well separated
+/// eigenvalues. The zero entries still get derivative parts.
+fn sparse_symmetric(rng: &mut Rng, n: usize) -> Vec<Vec<f64>> {
+    let mut a = vec![vec![0.0; n]; n];
+    let mut d = rng.range(-3.0, -1.0);
+    for i in 0..n {
+        a[i][i] = d;
+        d += rng.range(0.6, 1.2);
+    }
+    let arrow = rng.bool();
+    for i in 1..n {
+        let j = if arrow { 0 } else { i - 1 };
+        let c = rng.sign() * rng.range(0.1, 0.3);
+        a[i][j] = c;
+        a[j][i] = c;
+    }
+    // random relabelling keeps symmetry and the spectrum
+    let mut perm: Vec<usize> = (0..n).collect();
+    rng.shuffle(&mut perm);
+    (0..n).map(|i| (0..n).map(|j| a[perm[i]][perm[j]]).collect()).collect()
 }
 
 /// pivoting path of partial pivoting on the real part (harness-side classification)
@@ -355,13 +379,20 @@ fn check_crate<T: Jetty<F = f64> + Copy>(tname: &str, ctx: &Ctx, shard: usize, n
         let order = *rng.choose(&[RowOrder::AsIs, RowOrder::Random, RowOrder::Reversed, RowOrder::Cyclic, RowOrder::LargestLast]);
         let mut re = conditioned(&mut rng, n, kappa);
         reorder(&mut rng, &mut re, order);
+        // exact power-of-two scaling: conditioning is unchanged, absolute magnitudes are not
+        let scale = (2.0f64).powi(*rng.choose(&[0, 0, 0, -70, -30, 30, 60]));
+        for row in re.iter_mut() {
+            for v in row.iter_mut() {
+                *v *= scale;
+            }
+        }
         let (swaps, seq) = pivot_path(&re);
-        let a: Mats<T> = make_matrix(&mut rng, &re, &b, &shape, false, 1.0);
+        let a: Mats<T> = make_matrix(&mut rng, &re, &b, &shape, false, scale);
         let rhs: Mats<T> = make_vector(&mut rng, n, &b, &shape);
         let arr = Array2::from_shape_fn((n, n), |(i, j)| a.vals[i][j]);
         let bvec = Array1::from_shape_fn(n, |i| rhs.vals[i][0]);
-        let case = || json!({"type": tname, "n": n, "kappa": kappa, "row_order": format!("{:?}", order), "A_parts": a.vals.iter().map(|r| r.iter().map(|x| floats(&parts(x, &shape))).collect::<Vec<_>>()).collect::<Vec<_>>(), "b_parts": rhs.vals.iter().map(|r| floats(&parts(&r[0], &shape))).collect::<Vec<_>>()});
-        let class = format!("LU|{}|n{}|{}|swaps-{}", tname, n, format!("{:?}", order), if swaps % 2 == 0 { "even" } else { "odd" });
+        let case = || json!({"type": tname, "n": n, "kappa": kappa, "scale": scale, "row_order": format!("{:?}", order), "A_parts": a.vals.iter().map(|r| r.iter().map(|x| floats(&parts(x, &shape))).collect::<Vec<_>>()).collect::<Vec<_>>(), "b_parts": rhs.vals.iter().map(|r| floats(&parts(&r[0], &shape))).collect::<Vec<_>>()});
+        let class = format!("LU|{}|n{}|{}{}|swaps-{}", tname, n, format!("{:?}", order), if scale != 1.0 { "-scaled" } else { "" }, if swaps % 2 == 0 { "even" } else { "odd" });
         acc.observe(&class, n >= 2 && swaps >= 1);
         acc.count(&format!("pivot_sequence[{}:{:?}]", n, seq), 1);
         let lu = match guarded(|| LU::new(arr.clone())) {
@@ -440,7 +471,7 @@ fn check_crate<T: Jetty<F = f64> + Copy>(tname: &str, ctx: &Ctx, shard: usize, n
             for row in sre.iter_mut() {
                 row[col] = 0.0;
             }
-            let s: Mats<T> = make_matrix(&mut rng, &sre, &b, &shape, false, 1.0);
+            let s: Mats<T> = make_matrix(&mut rng, &sre, &b, &shape, false, scale);
             let sarr = Array2::from_shape_fn((n, n), |(i, j)| s.vals[i][j]);
             acc.observe(&format!("singular|{}|n{}|col{}", tname, n, col), true);
             match guarded(|| LU::new(sarr)) {
@@ -464,13 +495,18 @@ fn check_crate<T: Jetty<F = f64> + Copy>(tname: &str, ctx: &Ctx, shard: usize, n
                     l += rng.range(0.5, 1.5);
                 }
                 d
+            } else if ci % 6 == 2 && n >= 3 {
+                sparse_symmetric(&mut rng, n)
             } else {
                 symmetric(&mut rng, n)
             };
-            let s: Mats<T> = make_matrix(&mut rng, &sre, &b, &shape, true, 0.5);
+            let sparse = !hostile && ci % 6 == 2 && n >= 3;
+            let escale = (2.0f64).powi(*rng.choose(&[0, 0, 0, -60, 40]));
+            let sre: Vec<Vec<f64>> = sre.iter().map(|r| r.iter().map(|v| v * escale).collect()).collect();
+            let s: Mats<T> = make_matrix(&mut rng, &sre, &b, &shape, true, 0.5 * escale);
             let sarr = Array2::from_shape_fn((n, n), |(i, j)| s.vals[i][j]);
             let ecase = || json!({"type": tname, "n": n, "hostile_reducible_real_part": hostile, "A_parts": s.vals.iter().map(|r| r.iter().map(|x| floats(&parts(x, &shape))).collect::<Vec<_>>()).collect::<Vec<_>>()});
-            acc.observe(&format!("jacobi|{}|n{}|{}", tname, n, if hostile { "reducible-real-part" } else { "generic" }), n >= 2);
+            acc.observe(&format!("jacobi|{}|n{}|{}{}", tname, n, if hostile { "reducible-real-part" } else if sparse { "irreducible-with-zero-entries" } else { "dense" }, if escale != 1.0 { "-scaled" } else { "" }), n >= 2);
             match guarded(|| jacobi_eigenvalue(sarr.clone(), 200)) {
                 Ok((lam, v)) => {
                     let lj: Option<Vec<J>> = lam.iter().map(|x| to_jet(x, &b, &shape)).collect();
@@ -525,7 +561,13 @@ fn check_nalgebra<T: Jetty<F = f64> + RealField>(tname: &str, ctx: &Ctx, shard: 
         let order = *rng.choose(&[RowOrder::AsIs, RowOrder::Random, RowOrder::Reversed, RowOrder::Cyclic, RowOrder::LargestLast]);
         let mut re = conditioned(&mut rng, n, kappa);
         reorder(&mut rng, &mut re, order);
-        let a: Mats<T> = make_matrix(&mut rng, &re, &b, &shape, false, 1.0);
+        let scale = (2.0f64).powi(*rng.choose(&[0, 0, 0, -70, -30, 30, 60]));
+        for row in re.iter_mut() {
+            for v in row.iter_mut() {
+                *v *= scale;
+            }
+        }
+        let a: Mats<T> = make_matrix(&mut rng, &re, &b, &shape, false, scale);
         let rhs: Mats<T> = make_vector(&mut rng, n, &b, &shape);
         let am = DMatrix::from_fn(n, n, |i, j| a.vals[i][j].clone());
         let bv = DVector::from_fn(n, |i, _| rhs.vals[i][0].clone());
@@ -613,10 +655,11 @@ fn check_nalgebra<T: Jetty<F = f64> + RealField>(tname: &str, ctx: &Ctx, shard: 
         }
         // symmetric eigen / cholesky
         if ci % 2 == 0 && n >= 1 {
-            let sre = symmetric(&mut rng, n);
+            let sparse = ci % 6 == 2 && n >= 3;
+            let sre = if sparse { sparse_symmetric(&mut rng, n) } else { symmetric(&mut rng, n) };
             let s: Mats<T> = make_matrix(&mut rng, &sre, &b, &shape, true, 0.5);
             let sm = DMatrix::from_fn(n, n, |i, j| s.vals[i][j].clone());
-            acc.observe(&format!("nalgebra-symmetric_eigen|{}|n{}", tname, n), n >= 2);
+            acc.observe(&format!("nalgebra-symmetric_eigen|{}|n{}|{}", tname, n, if sparse { "irreducible-with-zero-entries" } else { "dense" }), n >= 2);
             let ecase = || json!({"type": tname, "shape": shape.name(), "n": n, "A_parts": s.vals.iter().map(|r| r.iter().map(|x| floats(&parts(x, &shape))).collect::<Vec<_>>()).collect::<Vec<_>>()});
             match guarded(|| sm.clone().symmetric_eigen()) {
                 Ok(e) => {
@@ -627,9 +670,14 @@ fn check_nalgebra<T: Jetty<F = f64> + RealField>(tname: &str, ctx: &Ctx, shard: 
                             // nalgebra's own convergence criterion leaves a relative residual of up to ~2.5e-11
                             // on plain f64 matrices (measured); allow 1e-9 before attributing to K4
                             let tol = (K * (n * n) as f64 * ((maxdeg + 1) * (maxdeg + 1)) as f64).max(1e-9 / u);
-                            check_eigen(&mut acc, &format!("nalgebra symmetric_eigen on {}", tname), format!("nalgebra-eigen:{}", tname), K4_SIG, K4_BAND, &s.jets, &lj, &vj, &b, tol, u, &ecase);
+                            if sparse {
+                                // K6: Householder tridiagonalisation takes sqrt of a sum of squares whose real part is 0
+                                check_eigen(&mut acc, &format!("nalgebra symmetric_eigen[zero off-diagonal real parts] on {}", tname), format!("nalgebra-eigen:{}", tname), K6_SIG, f64::INFINITY, &s.jets, &lj, &vj, &b, tol, u, &ecase);
+                            } else {
+                                check_eigen(&mut acc, &format!("nalgebra symmetric_eigen on {}", tname), format!("nalgebra-eigen:{}", tname), K4_SIG, K4_BAND, &s.jets, &lj, &vj, &b, tol, u, &ecase);
+                            }
                         }
-                        _ => acc.violate(format!("nalgebra-eigen:{}:nonfinite", tname), format!("nalgebra symmetric_eigen on {} (n={}) returned a non-finite part", tname, n), ecase()),
+                        _ => acc.violate(if sparse { K6_SIG.to_string() } else { format!("nalgebra-eigen:{}:nonfinite", tname) }, format!("nalgebra symmetric_eigen on {} (n={}{}) returned a non-finite part", tname, n, if sparse { ", zero off-diagonal real parts" } else { "" }), ecase()),
                     }
                 }
                 Err(m) => acc.violate(format!("nalgebra-eigen:{}:panic", tname), format!("symmetric_eigen panicked: {}", m), ecase()),
